@@ -101,10 +101,7 @@ def corrupt_case(rng, case):
     if kind == "score":
         c["result"][0]["score"] += 3000
     elif kind == "drop":
-        if len(c["result"]) < 2:
-            c["result"][0]["score"] += 3000
-        else:
-            del c["result"][0]
+        c["result"] = []  # nothing reported although admissible combinations exist
     else:
         r = c["result"][0]
         if not r["alleles"]:
